@@ -90,9 +90,24 @@ pub fn vote_of(s: usize) -> Vote {
 }
 
 pub fn proposal_msgs(i: usize, to: &Addr) -> Vec<CosmosMsg<Empty>> {
-    (0..i % 3)
+    // (now and then a batch proposal: 150 payments in one proposal - an entry like any other)
+    let count = if i % 9 == 4 { 150 } else { i % 3 };
+    (0..count)
         .map(|k| BankMsg::Send { to_address: to.to_string(), amount: cosmwasm_std::coins(1 + k as u128 + i as u128, "ucosm") }.into())
         .collect()
+}
+
+/// title and description of the i-th listed proposal: mostly short; some are long texts in which multi-byte
+/// characters sit at and around every round byte offset (256, 512, 1024)
+pub fn proposal_texts(i: usize) -> (String, String) {
+    let long = |base: usize| -> String { format!("{}{}", "x".repeat(base - 1 - i % 3), "\u{e9}\u{20ac}\u{fc}".repeat(8 + (1024 - base) / 7)) };
+    let title = if i % 8 == 5 { long(256) } else { format!("proposal {i}") };
+    let description = match i % 6 {
+        3 => long(512),
+        4 if i % 12 == 4 => long(1024),
+        _ => format!("description {}", i * 31),
+    };
+    (title, description)
 }
 
 pub fn build(case: &Case, ctx: &mut CaseCtx) -> Built {
@@ -236,14 +251,8 @@ pub fn build(case: &Case, ctx: &mut CaseCtx) -> Built {
                     2 => Some(Expiration::AtHeight(d.height + 35)),
                     _ => None,
                 };
-                must(
-                    exec(
-                        &mut d,
-                        proposer,
-                        ExecuteMsg::Propose { title: format!("proposal {i}"), description: format!("description {}", i * 31), msgs: proposal_msgs(i, &members[0]), latest },
-                    ),
-                    "propose",
-                );
+                let (title, description) = proposal_texts(i);
+                must(exec(&mut d, proposer, ExecuteMsg::Propose { title, description, msgs: proposal_msgs(i, &members[0]), latest }), "propose");
                 let id = i as u64 + 1;
                 required.insert(Key::Id(id));
                 // some ballots so that statuses differ (failures: already voted / expired; ignored)
